@@ -144,7 +144,8 @@ Record rust_typed (m : msg) : Prop := {
   rt_object : opt_all is_string (m_object m);
   rt_error_name : opt_all is_string (m_error_name m);
   rt_body : bytes_ok (m_body m);
-  rt_sig : is_string (m_sig m)
+  rt_sig : is_string (m_sig m);
+  rt_nfds : m_nfds m < 2 ^ 32          (* fewer than 2^32 descriptors are attached (`len() as u32`) *)
 }.
 
 (** ** the builders (message_builder.rs) and the standard messages (standard_messages.rs) as
